@@ -536,19 +536,19 @@ static void judge(Ctx& c, const Prob& P, const Out& O, int solver, int klass, bo
         for (size_t k = 0; k < P.clf.size(); ++k) { double n2 = 0; for (int x : P.clf[k].Nk) n2 += O.pi[x] * O.pi[x]; cone(P.clf[k].Fk, P.clf[k].mu * std::sqrt(n2), O.clfCond[k]); }
     }
     // per-row enforcement tolerance (a-priori model, see DESIGN 1.4):
-    //  PLUS: Newton stops at ||err||_2 <= ctol on the active rows; the last interval leaves -err.
+    //  PLUS: Newton stops at ||err||_2 <= ctol on the active rows; the last interval leaves -err (allowance x100).
     //  PGS : stops when the RMS over p rows of the *pre-update* row errors is < ctol; rows updated later in the
     //        same sweep move row r by at most sum_c |A_rc| * sor*|e_c|/(A_cc+D_c), |e_c| <= ctol*sqrt(p), plus the
-    //        motion of the clamped rows (measured above).
+    //        motion of the clamped rows (measured above); allowance x10 on the model, x3 on the measured motion.
     // tolRow(i, excl): tolerance of row i, leaving out the motion of the rows in `excl` (the element's own rows when
     // the condition being judged *is* the stationarity of that clamped element)
     auto tolRow = [&](int i, const VI& excl) {
         double round = 200 * EPS * (m + 4) * J.rowAbs[i];
-        if (solver == S_PLUS) return 10 * J.ctol + round;
+        if (solver == S_PLUS) return 100 * J.ctol + round;
         double g = 1, cl = 0;
         for (int x : P.part) { double dd = diag(x); if (dd > 0) g += 1.2 * std::fabs(P.a(i, x)) / dd;
             if (std::find(excl.begin(), excl.end(), x) == excl.end()) cl += std::fabs(P.a(i, x)) * natStep[x]; }
-        return 2 * J.ctol * std::sqrt((double)std::max(1, p)) * g + 3 * cl + round;
+        return 10 * J.ctol * std::sqrt((double)std::max(1, p)) * g + 3 * cl + round;
     };
     for (int i = 0; i < m; ++i) J.tolEq[i] = tolRow(i, VI());
 
